@@ -72,6 +72,18 @@ def run(chk):
             for e in (h, ("pipe", ("getkey", "m"), h), ("collect", ("pipe", ("index", ("self",), None), ("select", h))),
                       ("as", ("getkey", "i"), "i", ("pipe", ("getkey", "m"), ("has", ("var", "i")))), ("map", h)):
                 cases.append((e, doc))
+    # directed: every binary operator over operands that yield nothing, one falsy / truthy result, or several results
+    # (the empty-operand rules differ per operator: CalcWhenEmpty, short-circuit, alternative)
+    bdoc = {"a": None, "f": False, "t": 1, "z": 0, "e": [], "l": [1, 2], "s": "x", "m": {}}
+    opnds = [("getkey", "a"), ("getkey", "f"), ("getkey", "t"), ("getkey", "s"), ("index", ("getkey", "e"), None), ("index", ("getkey", "l"), None),
+             ("union", ("getkey", "a"), ("union", ("getkey", "f"), ("getkey", "t"))), ("pipe", ("getkey", "t"), ("select", ("eq", ("self",), L(2)))),
+             ("index", ("getkey", "m"), None), L(None), L(False), L(0), ("getkey", "nokey")]
+    for op in evalgen.BINOPS:
+        for lo in opnds:
+            for ro_ in opnds:
+                cases.append(((op, lo, ro_), bdoc))
+        for lo in opnds[:9]:
+            cases.append((("collect", ("pipe", ("index", ("getkey", "l"), None), (op, lo, ("index", ("getkey", "e"), None)))), bdoc))
     impl, mism, err = run_cases(chk, cases, "c01_cases")
     stats = collections.Counter()
     opsh = collections.Counter()
